@@ -599,7 +599,7 @@ class Ctx:
             wit = {str(d): str(m[d]) for d in m.decls()}
             detail = f"counter-model: {wit}; path={self.trace}; claim={claim}"
             self.run.ob(oid, core.FAILED, "z3", dt, detail=detail, witness=wit, replay=replay, text=txt[:1500], klass=klass)
-            self.assume(claim)
+            # a refuted claim is NOT assumed afterwards (it could make the rest of the path vacuous)
             return False
         # unknown: try cvc5-style fallback via fresh z3 with different tactic
         r2, dt2 = _second_opinion(self.pc, claim, self.interp.timeout_ms)
@@ -819,6 +819,7 @@ class Exec:
         for st in s.body:
             if isinstance(st, ast.FunctionDef):
                 f = sub.make_func(st, st.name, owner=cls)
+                f.env = self.env  # class scope is not visible from method bodies
                 val = f
                 for d in reversed(st.decorator_list):
                     dn = ast.unparse(d)
@@ -1068,8 +1069,14 @@ class Exec:
         if spec is not None:
             if not hasattr(it, "_pv_generic"):
                 raise OutsideSubset(f"loop spec on non-generic iterable in {self.qual}")
-            gen = it._pv_generic(self)  # returns (cond_fn, bind_fn(target_assign))
-            self.cut_loop(k, spec, s, gen[0], lambda: self.assign(s.target, gen[1]()))
+            # at loop entry the ghost index is the start value; the spec's havoc makes it generic
+            self.ctx.ghost["loop_index"] = getattr(it, "lo", 0)
+            holder = {}
+
+            def cond():
+                holder["gen"] = it._pv_generic(self)  # (cond_fn, bind_fn) built after the havoc
+                return holder["gen"][0]()
+            self.cut_loop(k, spec, s, cond, lambda: self.assign(s.target, holder["gen"][1]()))
             return
         items = self.iterate_concrete(it, what=f"for loop #{k} in {self.qual}")
         broke = False
@@ -1115,7 +1122,10 @@ class Exec:
         return m(e)
 
     def e_Constant(self, e):
-        return e.value
+        v = e.value
+        if isinstance(v, float) and not self.interp.ieee and math.isfinite(v):
+            return Fraction(v)  # floats are mathematical reals outside the IEEE mode (A1)
+        return v
 
     def e_Name(self, e):
         return self.lookup(e.id)
@@ -1249,6 +1259,8 @@ class Exec:
             try:
                 if a is None or b is None:
                     raise TypeError("NoneType operand")
+                if op is ast.Pow and isinstance(b, Fraction) and b.denominator != 1 and isinstance(a, (int, Fraction)):
+                    return self.sym_pow(a, float(b) if b == Fraction(1, 2) else b)
                 return pyop(a, b)
             except TypeError as ex:
                 raise PyRaise(make_exc(self.interp, "TypeError", str(ex)))
@@ -1314,7 +1326,7 @@ class Exec:
             for _ in range(b):
                 out = out * lift(a)
             return out
-        if isinstance(b, float) and b == 0.5:
+        if isinstance(b, (float, Fraction)) and b == 0.5:
             return self.interp.math_fn(self, "sqrt", to_real(a))
         if isinstance(b, int) and b < 0:
             base = self.sym_pow(a, -b)
@@ -1464,6 +1476,10 @@ class Exec:
         if isinstance(obj, Obj):
             if name in obj.attrs:
                 return obj.attrs[name]
+            if name == "__dict__":
+                return obj.attrs
+            if name == "__class__":
+                return obj.cls
             v, owner = obj.cls.lookup(name)
             if v is None and owner is None:
                 ga, _ = obj.cls.lookup("__getattr__")
@@ -1945,7 +1961,7 @@ class SymRange:
     def _pv_generic(self, ex):
         # the LoopSpec.havoc is expected to set ex.ctx.ghost['loop_index'] (a z3 Int) or we make one
         idx = ex.ctx.ghost.get("loop_index")
-        if idx is None:
+        if idx is None or not is_z3(idx):
             idx = ex.ctx.fresh("loop_i", "int")
             ex.ctx.ghost["loop_index"] = idx
         self.index = idx
@@ -2098,7 +2114,7 @@ def _is_intlike(o):
 BUILTIN_FUNCS = {
     "isinstance": Native(_b_isinstance_wrap, "isinstance"),
     "int": TypeTag("int", _is_intlike, _b_int),
-    "float": TypeTag("float", lambda o: isinstance(o, float) or (is_z3(o) and o.sort() == z3.RealSort()), _b_float),
+    "float": TypeTag("float", lambda o: isinstance(o, (float, Fraction)) or (is_z3(o) and o.sort() == z3.RealSort()), _b_float),
     "bool": TypeTag("bool", lambda o: isinstance(o, bool) or is_sym_bool(o), _b_bool),
     "str": TypeTag("str", lambda o: isinstance(o, str), _b_str),
     "dict": TypeTag("dict", lambda o: isinstance(o, dict), _b_dict),
